@@ -53,7 +53,7 @@ pub fn enc(t: &OwnedTerm, r: &RV, int_mode: u8, digits: usize, bits_mode: u8) {
 
 /// D (and R when `reencode`) on the reference encoding; `int_mode`/`digits` pin the integer width
 /// class of the shape (0 = no top-level integer) so that the encoded length is concrete
-pub fn dec(r: &RV, int_mode: u8, digits: usize, bits_mode: u8, reencode: bool) {
+pub fn dec(r: &RV, int_mode: u8, digits: usize, bits_mode: u8, reencode: bool, kind: u8) {
     let mut out = Out::new();
     out.push(131);
     let alt = Alt { int: int_mode, pad: digits, bits: bits_mode, ..MODERN };
@@ -63,6 +63,7 @@ pub fn dec(r: &RV, int_mode: u8, digits: usize, bits_mode: u8, reencode: bool) {
     match erltf::decode(bytes) {
         Ok(d) => {
             vassert!(denotes(&d, r), "L:decode_denotes_same_value");
+            vassert!(kind_of(&d) == kind, "L:decode_variant");
             if reencode {
                 match erltf::encode(&d) {
                     Ok(b2) => {
